@@ -32,10 +32,26 @@ func init() {
 			New:    "\tcurrentObj.SetResourceVersion(\"\")\n\tlog.Info(\"deleting managed object\",",
 			Expect: []string{"C05.R1@"}},
 		Mutant{Prop: "C05", Name: "benign-reorder-and-log", File: pr, Benign: true,
-			Old:    "\t\tUID:             ptr.To(currentObj.GetUID()),\n\t\tResourceVersion: ptr.To(currentObj.GetResourceVersion()),",
-			New:    "\t\tResourceVersion: ptr.To(currentObj.GetResourceVersion()),\n\t\tUID:             ptr.To(currentObj.GetUID()),"},
+			Old: "\t\tUID:             ptr.To(currentObj.GetUID()),\n\t\tResourceVersion: ptr.To(currentObj.GetResourceVersion()),",
+			New: "\t\tResourceVersion: ptr.To(currentObj.GetResourceVersion()),\n\t\tUID:             ptr.To(currentObj.GetUID()),"},
 		Mutant{Prop: "C05", Name: "benign-early-return-style", File: pr, Benign: true,
-			Old:    "\tif err != nil && apimachineryerrors.IsNotFound(err) {\n\t\t// No matter who the owner of this object is,\n\t\t// it's already gone.\n\t\treturn true, nil\n\t}\n\tif err != nil {\n\t\treturn false, fmt.Errorf(\"getting object for teardown: %w\", err)\n\t}",
-			New:    "\tif apimachineryerrors.IsNotFound(err) {\n\t\treturn true, nil\n\t} else if err != nil {\n\t\treturn false, fmt.Errorf(\"getting object for teardown: %w\", err)\n\t}"},
+			Old: "\tif err != nil && apimachineryerrors.IsNotFound(err) {\n\t\t// No matter who the owner of this object is,\n\t\t// it's already gone.\n\t\treturn true, nil\n\t}\n\tif err != nil {\n\t\treturn false, fmt.Errorf(\"getting object for teardown: %w\", err)\n\t}",
+			New: "\tif apimachineryerrors.IsNotFound(err) {\n\t\treturn true, nil\n\t} else if err != nil {\n\t\treturn false, fmt.Errorf(\"getting object for teardown: %w\", err)\n\t}"},
+	)
+}
+
+func init() {
+	const pr = "internal/controllers/phase_reconciler.go"
+	addMutants(
+		Mutant{Prop: "C05", Name: "benign-delete-helper-extracted", File: pr, Benign: true,
+			Old:  "\terr = r.writer.Delete(ctx, currentObj, client.Preconditions{\n\t\tUID:             ptr.To(currentObj.GetUID()),\n\t\tResourceVersion: ptr.To(currentObj.GetResourceVersion()),\n\t})\n",
+			New:  "\terr = r.deletePinned(ctx, currentObj)\n",
+			Why:  "helper extraction keeps guard, read and preconditions",
+			More: []Edit{{File: pr, Old: "func (r *PhaseReconciler) reconcilePhaseObject(", New: "func (r *PhaseReconciler) deletePinned(ctx context.Context, obj *unstructured.Unstructured) error {\n\treturn r.writer.Delete(ctx, obj, client.Preconditions{\n\t\tUID:             ptr.To(obj.GetUID()),\n\t\tResourceVersion: ptr.To(obj.GetResourceVersion()),\n\t})\n}\n\nfunc (r *PhaseReconciler) reconcilePhaseObject("}}},
+		Mutant{Prop: "C05", Name: "conflict-retry-without-ownership-recheck", File: pr,
+			Old:    "\terr = r.writer.Delete(ctx, currentObj, client.Preconditions{\n\t\tUID:             ptr.To(currentObj.GetUID()),\n\t\tResourceVersion: ptr.To(currentObj.GetResourceVersion()),\n\t})\n",
+			New:    "\terr = r.deletePinned(ctx, currentObj)\n\tif err != nil && apimachineryerrors.IsConflict(err) {\n\t\terr = r.uncachedClient.Get(ctx, client.ObjectKeyFromObject(desiredObj), currentObj)\n\t\tif err == nil {\n\t\t\terr = r.deletePinned(ctx, currentObj)\n\t\t}\n\t}\n",
+			Expect: []string{"C05.R1@"},
+			More:   []Edit{{File: pr, Old: "func (r *PhaseReconciler) reconcilePhaseObject(", New: "func (r *PhaseReconciler) deletePinned(ctx context.Context, obj *unstructured.Unstructured) error {\n\treturn r.writer.Delete(ctx, obj, client.Preconditions{\n\t\tUID:             ptr.To(obj.GetUID()),\n\t\tResourceVersion: ptr.To(obj.GetResourceVersion()),\n\t})\n}\n\nfunc (r *PhaseReconciler) reconcilePhaseObject("}}},
 	)
 }
